@@ -25,6 +25,8 @@ func runC11(c *Ctx, r *Report) {
 	r.Doc("R-C11.4", "Fetcher.{tasksCache,maxClock,minClock} and worker-shared locals only under Fetcher.muProcess")
 	r.Doc("R-C11.5", "context propagation on the fetch path: every callee taking a context receives the caller's own context (or one derived from it); WithTimeout's cancel is deferred")
 	r.Doc("R-C11.6", "the worker has no exit that bypasses the accounting when the fetch fails")
+	r.Doc("R-C11.7", "the caller's timeout and concurrency reach the fetcher through every loader and constructor")
+	optionForwarding(c, r, "R-C11.7", append(loaderFetchSpecs(), constructorLoaderSpecs()...), "Timeout", "Concurrency")
 
 	r.Doc("control", "engine positive/negative controls analysed on every run")
 	lockControls(c, r, "control")
